@@ -166,8 +166,140 @@ CONSTRUCTS = {
 }
 
 
+# ---------------------------------------------------------------------------------------------
+# GENERATOR-RESUME family.  CallGeneratorNext copies the generator's saved frame (self, parameters,
+# locals AND the temporaries that were pending at the `yield`) on top of the running thread's stack
+# at whatever depth the resume happens; no bytecode call (hence no growth check) precedes the copy,
+# so the resume itself may be what crosses a growth threshold.  Each construct resumes a generator
+# that was suspended WITH LIVE STATE at every level of the sweep: locals only (narrow saved frame),
+# in the middle of a list literal with W-1 pending temporaries (wide saved frame, W = k + 8, wider
+# than the recursion's frame stride so that some level is inside the window for every stack size),
+# created at the same level or created and suspended at the top level and passed down (resumed at a
+# depth different from the one it was suspended at), by `g.next` and by `for ... in`, and with a
+# bytecode call inside the generator body (growth while the generator's frame runs on the thread's
+# stack).  Generators avoid `yield` as the LAST expression of a loop body (crashes on the unchanged
+# tree whatever the configuration; not a C10 matter).
+#   name -> (snippet lines, printed expression, python value (d, D, W), walk parameter or None)
+def _gen_prelude(k):
+    w = k + 8
+    a = _args(k)
+    elems = ', '.join(['i'] + ['i + %d' % j for j in range(1, w - 1)])
+    return """
+def *wide(n: Int): Int
+  i := n
+  yield i
+  i += 1
+  l := [%s, do
+    yield i
+    i + %d
+  end]
+  i = l[0] + l[%d] + l[1]
+  yield i
+  i + 1
+end
+
+def *narrow(n: Int): Int
+  i := n
+  yield i
+  i += 1
+  j := i * 3
+  yield i + j
+  i * 2 + j
+end
+
+def *ticker(m: Int): Int
+  i := 0
+  s := m
+  while i < 100000
+    i += 1
+    s += i * m
+    t := [%s, do
+      yield s
+      m
+    end]
+    yield t.length + i
+    nil
+  end
+  0
+end
+
+def pull(h: Generator[Int, never]): Int
+  try h.next
+end
+
+def *bumpgen(n: Int): Int
+  i := n
+  yield i
+  i = Helper.bump(i%s)
+  yield i
+  Helper.bump(i + n%s)
+end
+""" % (elems, w, w - 1, elems, a, a)
+
+
+def _wide_vals(n, w):
+    return [n, n + 1, 3 * n + 4 + w, 3 * n + 5 + w]
+
+
+def _fold7(xs):
+    r = 0
+    for x in xs:
+        r = r * 7 + x
+    return r
+
+
+def _tick(j, m):
+    return m * (1 + j * (j + 1) // 2)
+
+
+def _tick_val(r, m, w):
+    """value of the r-th resume (1-based) of ticker(m)"""
+    return _tick((r + 1) // 2, m) if r % 2 else w + r // 2
+
+
+def _fold1000(xs):
+    r = 0
+    for x in xs:
+        r = r * 1000 + x
+    return r
+
+
+GEN_CONSTRUCTS = {
+    # g.next x4 on a generator created at this level; the 3rd resume restores the wide frame
+    'generator_next_wide': (
+        ['h := wide(depth)', 'a := try h.next', 'b := try h.next', 'c := try h.next', 'e := try h.next',
+         'r := a + b * 3 + c * 5 + e * 7'], 'r.inspect',
+        lambda d, D, w: str(sum(x * y for x, y in zip(_wide_vals(d, w), (1, 3, 5, 7)))), None),
+    # locals only
+    'generator_next_narrow': (
+        ['h := narrow(depth)', 'a := try h.next', 'b := try h.next', 'c := try h.next', 'r := a + b * 3 + c * 5'], 'r.inspect',
+        lambda d, D, w: str(d + (d + 1 + (d + 1) * 3) * 3 + ((d + 1) * 2 + (d + 1) * 3) * 5), None),
+    # the generator is suspended inside the list literal one frame deeper (by `pull`) and resumed here
+    'generator_next_other_depth': (
+        ['h := wide(depth)', 'a := try h.next', 'b := pull(h)', 'c := try h.next', 'e := pull(h)',
+         'r := a + b * 3 + c * 5 + e * 7'], 'r.inspect',
+        lambda d, D, w: str(sum(x * y for x, y in zip(_wide_vals(d, w), (1, 3, 5, 7)))), None),
+    # for-in (GET_ITERATOR / NEXT) over a generator primed one frame deeper: its first iteration restores the wide frame
+    'forin_generator_wide': (
+        ['r := 0', 'h := wide(depth % 5)', 'pull(h)', 'pull(h)', 'for x in h', '  r = r * 7 + x', 'end'], 'r.inspect',
+        lambda d, D, w: str(_fold7(_wide_vals(d % 5, w)[2:])), None),
+    # a generator suspended at the top level (resp. one level up) and resumed here: odd resumes restore the wide frame
+    'generator_next_passed': (
+        ['r := (try g.next) * 1000 + (try g.next)'], 'r.inspect',
+        lambda d, D, w: str(_tick(D - d + 1, 3) * 1000 + w + (D - d + 1)), ('g: Generator[Int, never]', 'ticker(3)')),
+    # three resumes per level, so that the level's FIRST resume alternates between the narrow and the wide saved frame
+    'forin_generator_passed': (
+        ['r := 0', 'c := 0', 'for x in g', '  r = r * 1000 + x', '  c += 1', '  break if c >= 3', 'end'], 'r.inspect',
+        lambda d, D, w: str(_fold1000([_tick_val(3 * (D - d) + i, 2, w) for i in (1, 2, 3)])), ('g: Generator[Int, never]', 'ticker(2)')),
+    # growth at a bytecode call made by the generator body while its frame lives on the thread's stack
+    'generator_body_calls_helper': (
+        ['h := bumpgen(depth)', 'a := try h.next', 'b := try h.next', 'c := try h.next', 'r := a + b * 3 + c * 5'], 'r.inspect',
+        lambda d, D, w: str(d + (d + 1) * 3 + (2 * d + 2) * 5), None),
+}
+
+
 def constructs():
-    return sorted(CONSTRUCTS)
+    return sorted(CONSTRUCTS) + sorted(GEN_CONSTRUCTS)
 
 
 def frame_slots(construct, pad):
@@ -182,6 +314,8 @@ def depth_for(pad, thresholds_slots=760):
 
 
 def program(construct, k, pad, depth, offset):
+    if construct in GEN_CONSTRUCTS:
+        return _gen_program(construct, k, pad, depth, offset)
     lines, show, pyv = CONSTRUCTS[construct]
     a = _args(k)
     out = [_prelude(k)]
@@ -198,5 +332,30 @@ def program(construct, k, pad, depth, offset):
         out.append('o%d := %d' % (i + 1, i))
     out.append('println(walk(%d).inspect)' % depth)
     exp = ''.join('d %d %s\n' % (d, pyv(d)) for d in range(depth, 0, -1))
+    exp += '%d\n' % (depth * (1 + (pad - 1 if pad else 0)))
+    return '\n'.join(out) + '\n', exp
+
+
+def _gen_program(construct, k, pad, depth, offset):
+    lines, show, pyv, passed = GEN_CONSTRUCTS[construct]
+    w = k + 8
+    out = [_prelude(k), _gen_prelude(k)]
+    out.append('def walk(depth: Int%s): Int' % (', ' + passed[0] if passed else ''))
+    out.append('  return 0 if depth == 0')
+    for i in range(pad):
+        out.append('  q%d := depth + %d' % (i + 1, i))
+    for l in lines:
+        out.append('  ' + l)
+    out.append('  println("d " + depth.to_string + " " + %s)' % show)
+    out.append('  walk(depth - 1%s) + 1' % (', g' if passed else '') + (' + q%d - q1' % pad if pad else ''))
+    out.append('end')
+    for i in range(offset):
+        out.append('o%d := %d' % (i + 1, i))
+    if passed:
+        out.append('gg := %s' % passed[1])
+        out.append('println(walk(%d, gg).inspect)' % depth)
+    else:
+        out.append('println(walk(%d).inspect)' % depth)
+    exp = ''.join('d %d %s\n' % (d, pyv(d, depth, w)) for d in range(depth, 0, -1))
     exp += '%d\n' % (depth * (1 + (pad - 1 if pad else 0)))
     return '\n'.join(out) + '\n', exp
